@@ -21,6 +21,7 @@ Section ObjInd.
   Hypothesis HSeq : forall l, Forall P l -> P (OSeq l).
   Hypothesis HNone : P ONone.
   Hypothesis HOther : forall d r, P (OOther d r).
+  Hypothesis HSet : forall l, P (OSet l).
 
   Fixpoint obj_ind' (o : obj) : P o :=
     match o with
@@ -50,6 +51,7 @@ Section ObjInd.
                    end) l)
     | ONone => HNone
     | OOther d r => HOther d r
+    | OSet l => HSet l
     end.
 End ObjInd.
 
@@ -249,7 +251,7 @@ Section Stable.
 
   Lemma tokens_strip : forall o, tokens ps (strip o) = tokens ps o.
   Proof.
-    induction o as [p| |c i d IH|d IH|f|s|z|b|l IH| |dd rr] using obj_ind'; try reflexivity.
+    induction o as [p| |c i d IH|d IH|f|s|z|b|l IH| |dd rr|ss] using obj_ind'; try reflexivity.
     - (* OInst *)
       rewrite strip_inst, !tokens_inst. f_equal.
       destruct (sel_of i) as [fs| |args ex] eqn:Es; cbn [select].
@@ -317,7 +319,7 @@ Proof. reflexivity. Qed.
 
 Lemma raises_strip : forall o, raises (strip o) = raises o.
 Proof.
-  induction o as [p| |c i d IH|d IH|f|s|z|b|l IH| |dd rr] using obj_ind'; try reflexivity.
+  induction o as [p| |c i d IH|d IH|f|s|z|b|l IH| |dd rr|ss] using obj_ind'; try reflexivity.
   - rewrite strip_inst, !raises_inst.
     unfold sel_of. destruct (idf i) as [fs|] eqn:Ei.
     + (* declared fields *)
